@@ -1,15 +1,11 @@
 (** C10 obligation: reading any accepted text and writing the value again yields a canonical text c that reads to the same value and is a
     fixed point of read-then-write.  [entity_free v]: for a str value, String.convert's un-escaping leaves it unchanged (the reading adopted for
     strings: the escaping that inverts it is the serializer's, theorem unescape_escape; T_canonical_fixed_point_unguarded_refuted pins the witness). *)
-From OfxV Require Import Base.Prelude Base.Digits Gen.ScalarsGen Model.PyDecimal Model.Scalars Model.ScalarsLex Proofs.ScalarsText Proofs.PyDecimalProofs Proofs.ScalarsProofs Proofs.ScalarsLexProofs.
+From OfxV Require Import Base.Prelude Base.Digits Gen.ScalarsGen Model.PyDecimal Model.Scalars Model.ScalarsLex Proofs.ScalarsText Proofs.PyDecimalProofs Proofs.ScalarsProofs Proofs.ScalarsLexProofs Proofs.ScalarsThms.
 Local Open Scope N_scope.
 Theorem T_canonical_fixed_point : forall e s v w,
   convert e (PStr s) = OK (v, w) -> v <> PNone -> entity_free v ->
   exists c w1, unconvert e v = OK (Some c, w1) /\ convert e (PStr c) = OK (v, w1)
                /\ bind (convert e (PStr c)) (fun vw => unconvert e (fst vw)) = OK (Some c, w1).
-Proof.
-  intros e s v w. rewrite convert_elem. intros Hc Hn Hf.
-  destruct (canonical_sty _ _ _ _ _ Hc Hn Hf) as (c & w1 & Hu & Hc2). exists c, w1.
-  rewrite convert_elem, unconvert_elem. repeat split; try assumption. rewrite Hc2. cbn [bind fst]. rewrite unconvert_elem. exact Hu.
-Qed.
+Proof. exact T_canonical_fixed_point_l. Qed.
 Print Assumptions T_canonical_fixed_point.
